@@ -23,7 +23,7 @@ from ..report import Ctx
 from ..selftest import Mutant
 
 PROP = "C09"
-TECHNIQUE = "static analysis: information-flow rules from supplied names/bound values to the cache key + caller-object mutation (reaching rebinding) analysis + mutator->invalidation reachability + check-then-act detection + CFG/guard rules on the hit path + memoised-deserialiser rule + key-covers-kwargs rule + dependence closure of the cache-use condition"
+TECHNIQUE = "static analysis: information-flow rules from supplied names/bound values to the cache key + caller-object mutation (reaching rebinding) analysis + mutator->invalidation reachability + check-then-act detection + CFG/guard rules on the hit path + memoised-deserialiser rule + key-covers-kwargs rule + dependence closure of the cache-use condition + function-identity component of the map cache key"
 BASE = "pipefunc._pipeline._base"
 CA = "pipefunc._pipeline._cache"
 EXPLANATION = (
@@ -391,6 +391,7 @@ def check(ctx: Ctx) -> None:
 
 B, CF, R = "pipefunc/_pipeline/_base.py", "pipefunc/_pipeline/_cache.py", "pipefunc/map/_run.py"
 MUTANTS = [
+    Mutant("map-key-by-dunder-name", "pipefunc/map/_run.py", "    cache_key = (func.output_name, to_hashable(kwargs))\n", "    cache_key = (func.__name__, to_hashable(kwargs))\n", ("C09.4-map-key",), why="round-4 seed C09/12"),
     Mutant("intermediate-guard-dropped-F14", B,
            "            if any(name in self.output_to_func for name in flat_scope_kwargs):\n                # An intermediate result was provided, the output is then\n                # not determined by the root arguments and should not be cached.\n                cache_key = None\n            else:\n                cache_key = compute_cache_key(\n                    func.output_name,\n                    self._func_defaults(func) | flat_scope_kwargs | func._bound,\n                    root_args,\n                )\n",
            "            cache_key = compute_cache_key(\n                func.output_name,\n                self._func_defaults(func) | flat_scope_kwargs | func._bound,\n                root_args,\n            )\n", ("C09.1-key-complete",), why="original F14"),
